@@ -41,7 +41,8 @@ CHECKS = {
              "scripts, credentials and governance items, pool registration / relays, metadata / auxiliary data and the witness "
              "set, an independent Lean transliteration of the CDDL rule (Spec/*.lean: encoder of spec content and recogniser of "
              "items) and theorems `toItem x = spec x`, `recogniser accepts what is written`, `what the rule admits is decoded "
-             "and written back unchanged`.",
+             "and written back unchanged`; the constructor codes, enumerations and map keys those models assume are re-checked "
+             "against the regenerated table (Props/C02_Consts.lean).",
         ref="3 C02", technique="Lean 4 proof over a schema regenerated from the source (translator) against a specification table + reference-encoder correspondence",
         note=TB + "the specification table and the reference encoder are hand transliterations of the Conway CDDL (trusted); "
                   "classes with a hand-written to_primitive have conformance theorems of their own in the extensions where listed above; "
